@@ -1048,6 +1048,18 @@ def main():
             hist[k2] = hist.get(k2, 0) + v
         if r["sample"] and len(samples) < 3:
             samples.append({"component": f'{r["kind"]}/{r["profile"]}', "ops": r["sample"]})
+    per_component = {}
+    for r in results:
+        key = f'{r["kind"]}/{r["profile"]}'
+        pc = per_component.setdefault(key, {"cases": 0, "ops": 0, "nontrivial": 0, "disagreements": 0,
+                                            "oracle_failures": 0, "notes": []})
+        pc["cases"] += r["ncases"]
+        pc["ops"] += r["ops"]
+        pc["nontrivial"] += r["nontrivial"]
+        pc["disagreements"] += len(r["disagree"])
+        pc["oracle_failures"] += len(r["oracle_fail"])
+        if r.get("note") and r["note"] not in pc["notes"] and len(pc["notes"]) < 3:
+            pc["notes"].append(r["note"])
     wall = time.time() - t0
     ev = {
         "property_id": prop, "tier": tier, "seed": seed, "level": cfg.get("level", "proof"),
@@ -1065,7 +1077,7 @@ def main():
             "samples": samples or [{"note": "no generated case (build failed?)"}],
             "traces_validated_against_impl": total_cases - len(disagreements),
             "operations_executed": nops, "op_histogram": hist,
-            "projection": mode, "oracle": oracle_id,
+            "projection": mode, "oracle": oracle_id, "components": per_component,
             "corpus": corpus_runs,
             "disagreements": len(disagreements), "oracle_failures_on_impl": len(oracle_fails),
             "tie_broken": tie_broken, "source_audit_ok": oka, "constants": consts if okc else None,
